@@ -213,14 +213,15 @@ func ParseField(v reflect.Value, bytes []byte, params fieldParameters) error {
 				offset := 0
 				// embed choice type
 				if params.tagNumber != nil {
-					tal, talOff, err = parseTagAndLength(bytes[talOff:])
+					// the alternative's own header follows the header of the explicit tag
+					offset = talOff
+					tal, talOff, err = parseTagAndLength(bytes[offset:])
 					if err != nil {
 						return err
 					}
-					if int64(talOff)+tal.len > int64(len(bytes)) {
+					if int64(offset)+int64(talOff)+tal.len > int64(len(bytes)) {
 						return fmt.Errorf("type value out of range")
 					}
-					offset += talOff
 				}
 
 				for i := 1; i < structType.NumField(); i++ {
